@@ -5,6 +5,7 @@ package main
 // only if the rule holds for exactly the bytes being verified.  Also: byte flips of a signed image.
 
 import (
+	"io"
 	"bytes"
 	"crypto/sha256"
 	"fmt"
@@ -125,13 +126,13 @@ func runImgSym(sc M) {
 	// (nothing learnt while verifying against one certificate may carry over to another)
 	{
 		freshV := map[string]string{}
-		for _, cn := range []string{"A", "At", "B"} {
+		for _, cn := range []string{"A", "At", "B", "Ae", "Ac"} {
 			cert = certByName(cn)
 			freshV[cn] = verify("fresh/"+cn, file)
 			delete(results, "fresh/"+cn)
 		}
 		cert = certByName(str(sc, "cert"))
-		for _, order := range [][]string{{"A", "At", "B", "A"}, {"At", "A", "B"}, {"B", "At", "A", "At"}} {
+		for _, order := range [][]string{{"A", "At", "B", "A"}, {"At", "A", "B"}, {"B", "At", "A", "At"}, {"Ae", "A", "Ac"}} {
 			var p *authenticode.PECOFFBinary
 			guard(func() error { p, _ = authenticode.Parse(bytes.NewReader(file)); return nil })
 			if p == nil {
@@ -159,6 +160,45 @@ func runImgSym(sc M) {
 			}
 		}
 		delete(results, "appended")
+	}
+	// the same question asked of the signature directly (Authenticode.Verify over the hash input as a stream): bytes that follow the
+	// signed hash input are part of what is being verified however the reader hands them over - in ordinary reads, or together
+	// with io.EOF in the last read
+	if r == "true" {
+		u := ti.unsigned
+		hi := append(append(append([]byte{}, u[:ti.img.cksum]...), u[ti.img.cksum+4:ti.img.dd4]...), u[ti.img.dd4+8:]...)
+		hi = append(hi, make([]byte, (8-len(u)%8)%8)...)
+		direct := func(name string, rd io.Reader) string {
+			callStart(id, name, nil)
+			var ok bool
+			var err error
+			o, _ := guard(func() error {
+				a, e := authenticode.ParseAuthenticode(blob)
+				if e != nil {
+					err = e
+					return nil
+				}
+				ok, err = a.Verify(cert, rd)
+				return nil
+			})
+			return verdict(ok, err, o)
+		}
+		if d0 := direct("direct", bytes.NewReader(hi)); d0 == "true" {
+			ext := append(append([]byte{}, hi...), prbytes("appended-stream", 100)...)
+			for _, rd := range []io.Reader{bytes.NewReader(ext), &pieceReader{b: ext, max: len(hi), eofWithData: true}, &pieceReader{b: ext, max: 13, eofWithData: true}, onlyReader{bytes.NewReader(ext)}} {
+				if rr := direct("direct-appended", rd); rr == "true" || rr == "true+error" {
+					bad = append(bad, fmt.Sprintf("direct: the signature verifies over a stream that carries 100 more bytes than the signed hash input (reader %T)", rd))
+					break
+				}
+			}
+			cut := hi[:len(hi)-1]
+			for _, rd := range []io.Reader{bytes.NewReader(cut), &pieceReader{b: cut, max: 13, eofWithData: true}} {
+				if rr := direct("direct-short", rd); rr == "true" || rr == "true+error" {
+					bad = append(bad, "direct: the signature verifies over a stream that lacks the last byte of the signed hash input")
+					break
+				}
+			}
+		}
 	}
 	// covered-byte flips of an image that verifies: no flip may leave it verifying
 	nfl := 0
